@@ -2,6 +2,7 @@ package props
 
 import (
 	"fmt"
+	"reflect"
 	"strings"
 	"sync"
 	"sync/atomic"
@@ -16,7 +17,8 @@ import (
 
 func init() {
 	register(&Property{
-		ID: "C14",
+		ID:    "C14",
+		Yield: true,
 		Rule: "(i) aliasing: along PRNG operation histories every value returned by every Tracker method is deep-copied, then scribbled over (every field, both mode structs, maps: overwrite/insert/delete, writes through *ChanPrivs) " +
 			"and the full query sweep must still equal the relational model; values returned earlier must still equal their deep copy after later tracker operations; (ii) the race detector watches 3..8 goroutines calling all methods " +
 			"on one tracker (a report with both stacks in goirc/state is a violation); (iii) short timed concurrent histories (3..6 goroutines x 6..10 calls over 3 nicks x 2 channels, call/return ticks from one atomic clock) are checked for " +
@@ -27,7 +29,8 @@ func init() {
 		},
 		RaceClaim: func(rep string) bool { return raceBothIn(rep, "goirc/state.") },
 		Plan: func(tier string, seed int64) []Batch {
-			bs := []Batch{{Name: "alias", Args: map[string]string{"mode": "alias"}, Procs: 1}}
+			// (the same 1500 / 6000 histories as one batch would run, over three processes)
+			bs := splitBatches("aliasq", 3, false, 1, map[string]string{"mode": "alias"})
 			if tier == "thorough" {
 				bs = append(bs, splitBatches("alias", 6, false, 1, map[string]string{"mode": "alias", "heavy": "1"})...)
 			}
@@ -62,30 +65,7 @@ func copyPrivMap(m map[string]*state.ChanPrivs) map[string]*state.ChanPrivs {
 }
 
 func deepCopyRet(r model.TRet) model.TRet {
-	out := model.TRet{OK: r.OK}
-	if r.Nick != nil {
-		n := *r.Nick
-		if r.Nick.Modes != nil {
-			md := *r.Nick.Modes
-			n.Modes = &md
-		}
-		n.Channels = copyPrivMap(r.Nick.Channels)
-		out.Nick = &n
-	}
-	if r.Chan != nil {
-		ch := *r.Chan
-		if r.Chan.Modes != nil {
-			md := *r.Chan.Modes
-			ch.Modes = &md
-		}
-		ch.Nicks = copyPrivMap(r.Chan.Nicks)
-		out.Chan = &ch
-	}
-	if r.Privs != nil {
-		p := *r.Privs
-		out.Privs = &p
-	}
-	return out
+	return reflCopy(reflect.ValueOf(r)).Interface().(model.TRet)
 }
 
 func scribblePrivs(p *state.ChanPrivs) {
@@ -116,32 +96,42 @@ func scribbleMap(m map[string]*state.ChanPrivs) {
 	m["me"] = &state.ChanPrivs{Admin: true}
 }
 
-// scribble changes everything reachable from a returned value.
+// scribble changes everything reachable from a returned value (reflScribble: every field of the snapshots, of
+// their mode structs and whatever those contain, both kinds of membership map, the privilege structs).
 func scribble(r model.TRet) {
-	if n := r.Nick; n != nil {
-		n.Nick, n.Ident, n.Host, n.Name = n.Nick+"~", "scribbled", "scribbled", "scribbled"
-		if n.Modes != nil {
-			m := n.Modes
-			m.Bot, m.Invisible, m.Oper, m.WallOps, m.HiddenHost, m.SSL = !m.Bot, !m.Invisible, !m.Oper, !m.WallOps, !m.HiddenHost, !m.SSL
-		}
-		scribbleMap(n.Channels)
+	if r.Nick != nil {
+		reflScribble(reflect.ValueOf(r.Nick), 0)
 	}
-	if c := r.Chan; c != nil {
-		c.Name, c.Topic = c.Name+"~", "scribbled"
-		if c.Modes != nil {
-			m := c.Modes
-			m.Private, m.Secret, m.ProtectedTopic, m.NoExternalMsg, m.Moderated = !m.Private, !m.Secret, !m.ProtectedTopic, !m.NoExternalMsg, !m.Moderated
-			m.InviteOnly, m.OperOnly, m.SSLOnly, m.Registered, m.AllSSL = !m.InviteOnly, !m.OperOnly, !m.SSLOnly, !m.Registered, !m.AllSSL
-			m.Key += "scribbled"
-			m.Limit += 7
-		}
-		scribbleMap(c.Nicks)
+	if r.Chan != nil {
+		reflScribble(reflect.ValueOf(r.Chan), 0)
 	}
-	scribblePrivs(r.Privs)
+	if r.Privs != nil {
+		reflScribble(reflect.ValueOf(r.Privs), 0)
+	}
+}
+
+// c14Dump renders everything the tracker answers about the name universe.
+func c14Dump(st state.Tracker) string {
+	// (the listing walks maps, so its line order differs from call to call: compared as a sorted set of lines)
+	ls := strings.Split(st.String(), "\n")
+	sortStrings(ls)
+	var b strings.Builder
+	b.WriteString(strings.Join(ls, "\n"))
+	for _, n := range c12BigNicks {
+		b.WriteString("\nn:" + n + "=")
+		reflPrint(&b, reflect.ValueOf(st.GetNick(n)), 0)
+	}
+	for _, ch := range c12BigChans {
+		b.WriteString("\nc:" + ch + "=")
+		reflPrint(&b, reflect.ValueOf(st.GetChannel(ch)), 0)
+	}
+	b.WriteString("\nme=")
+	reflPrint(&b, reflect.ValueOf(st.Me()), 0)
+	return b.String()
 }
 
 func retDeepEq(a, b model.TRet) bool {
-	return model.RetString(a) == model.RetString(b)
+	return model.RetString(a) == model.RetString(b) && reflect.DeepEqual(a, b)
 }
 
 func runC14(c *Ctx) {
@@ -252,8 +242,24 @@ func runC14Alias(c *Ctx) {
 						held = held[1:]
 					}
 				}
+				// (the tracker compared with itself around the scribble, for one scribble in three: it covers what the model
+				// does not know of - the model sweep below runs after every one)
+				selfCmp := (idx+k)%3 == 0
+				before := ""
+				if selfCmp {
+					before = c14Dump(st)
+				}
 				scribble(got)
 				c.R.Class("scribbled|" + op.Kind)
+				if selfCmp && before != c14Dump(st) {
+					c.R.Violate(rig.Violation{
+						Sig:    "c14|scribble-leaked|" + op.Kind,
+						Detail: fmt.Sprintf("after mutating the value returned by %s the tracker's own answers (every nick and channel of the universe, and its listing) differ from what they were just before", op),
+						Case:   Case("alias", idx), Witness: tail(),
+					})
+					failed = true
+					break
+				}
 				if d := model.Sweep(st, m, c12BigNicks, c12BigChans); d != "" {
 					c.R.Violate(rig.Violation{
 						Sig:    "c14|scribble-leaked|" + op.Kind,
